@@ -80,7 +80,7 @@ class EHistCheck(Check):
             last = {}
             frontier = [((), st0)]
             nstates += 1
-            for d in range(depth):
+            for d in range(m.depth_of(tpl, depth) if hasattr(m, "depth_of") else depth):
                 nxt = []
                 for hist, st in frontier:
                     for op in m.ops(tpl, st):
